@@ -225,6 +225,10 @@ class Repo:
         self.functions: list[FuncInfo] = []
         self._load()
         self._link()
+        from . import callnorm
+
+        fresh = [m for m in self.modules.values() if share is None or share.modules.get(m.name) is not m]
+        callnorm.canonicalise(self, fresh)
 
     # ------------------------------------------------------------------ loading
     def _load(self):
